@@ -28,6 +28,8 @@ pub struct Ctx {
     pub heapy: bool,
     /// deal the directed scripts round-robin to the shards instead of running all on each
     pub spread_directed: bool,
+    /// C18 under slow tools: inject at every stride-th call only (offset rotates)
+    pub inject_stride: u64,
     pub variant: String,
 }
 
